@@ -75,7 +75,7 @@ impl Expr {
                         .iter()
                         .find(|[key, _]| interner.eq_some("@SIZEOF", *key))?;
                     let value = interner.get(meta[1]).unwrap();
-                    stack.push(i32::from_str_radix(value, 10).unwrap());
+                    stack.push(i32::from_str_radix(value, 10).ok()?);
                 }
                 ExprNode::Invert => {
                     let value = stack.pop().unwrap();
